@@ -530,6 +530,11 @@ func sortedMapCase(dir string, c C) []viol {
 		if v := check("get-after-delete:pos=" + pos); len(v) > 0 {
 			return append(vs, v...)
 		}
+		// the .idx is this volume's deletion journal: regenerating the sorted index from it must give the same live set
+		live, err := liveSetOfIdx(base + ".idx")
+		if err != nil || !sameLive(live, s.liveSet()) {
+			return append(vs, viol{"sorted-map:idx-after-delete:live-set-differs", fmt.Sprintf("after SortedFileNeedleMap.Delete(%d) the live set of the .idx is %v (err %v), expected %v", d, live, err, s.liveSet())})
+		}
 	}
 	return vs
 }
